@@ -126,6 +126,18 @@ func allocCases(seed int64, tier string) []allocCase {
 		}
 		add("random", "", t)
 	}
+	// 5b. header variants: stream/wait bit, function code, PType, SType around their boundaries, with and without text
+	for _, b2 := range []byte{0, 1, 0x7F, 0x80, 0x81, 0xFF} {
+		for _, b3 := range []byte{0, 1, 2, 3, 254, 255} {
+			for _, pt := range []byte{0, 1} {
+				for _, st := range []byte{0, 1, 9} {
+					for _, text := range [][]byte{nil, {0xA5, 0x01, 0x07}} {
+						cs = append(cs, allocCase{"header-variants", "", mkMsg(0, pt, st, b2, b3, text)})
+					}
+				}
+			}
+		}
+	}
 	// 6. the extreme: 16 MiB of nested one-element lists (a known finding, kept last)
 	{
 		d := (1<<24 - 1 - 3) / 2
